@@ -1284,6 +1284,7 @@ package p9p
 //@ ensures rejected_nil: err != nil ==> result0 == nil
 
 //@ func newFcall
+//@ inline
 //@ property C01
 //@ requires msg != nil
 //@ ensures result != nil && result.Type == kindOf(msg) && result.Tag == tag && result.Message == msg
